@@ -134,14 +134,16 @@ Paths(T, src, dst) ==
 
 \* ------------------------------------------------------------------ journeys
 VARIABLES ti, pkt, ifs, loc, leg, k, status, src0, dst0,
+          fault,   \* C10: [kind |-> "none" | "down" | "expired" | "alert", as, if]
           tam      \* C04: [on |-> FALSE] or the single alteration applied: [on, kind, h (first dependent hop, 0-based)]
-vars == <<ti, pkt, ifs, loc, leg, k, status, src0, dst0, tam>>
+vars == <<ti, pkt, ifs, loc, leg, k, status, src0, dst0, fault, tam>>
 
 NoPkt == [src |-> "", dst |-> "", ci |-> 0, ch |-> 0, sl |-> <<0, 0, 0>>, infos |-> <<>>, hops |-> <<>>]
 NoLoc == [as |-> "", r |-> 0, scope |-> "none", inif |-> 0, from |-> 0]
 
 Init == /\ ti \in 1..NT /\ pkt = NoPkt /\ ifs = <<>> /\ loc = NoLoc /\ leg = "none" /\ k = 0
         /\ status = "choose" /\ src0 = "" /\ dst0 = "" /\ tam = [on |-> FALSE, kind |-> "", h |-> 0]
+        /\ fault = [kind |-> "none", as |-> "", if |-> 0]
 
 FirstLoc(T, as, path) ==
     \* the host hands the packet to the router that owns the first egress interface
@@ -155,37 +157,77 @@ Choose ==
               /\ pkt' = pa.pkt /\ ifs' = pa.ifs /\ src0' = s /\ dst0' = d
               /\ loc' = FirstLoc(TT[ti], s, pa)
               /\ leg' = "req" /\ k' = 0 /\ status' = "flight"
-    /\ UNCHANGED <<ti, tam>>
+    /\ UNCHANGED <<ti, tam, fault>>
 
 LegIfs == IF leg = "rep" THEN Rev(ifs) ELSE ifs
 LegDst == IF leg = "rep" THEN src0 ELSE dst0
 
+\* C10: the slow path answers; the answer leaves through the link the packet came in through
+Answer(T, res) ==
+    /\ pkt' = ScmpReply(loc.as, loc.scope, res.pkt)
+    /\ leg' = "scmp" /\ k' = 0
+    /\ IF loc.scope = "int" THEN
+           /\ status' = (IF loc.as = src0 THEN "scmp-delivered" ELSE "strayed")
+           /\ UNCHANGED loc
+       ELSE IF loc.scope = "sib" THEN
+           /\ loc' = [as |-> loc.as, r |-> loc.from, scope |-> "sib", inif |-> 0, from |-> loc.r]
+           /\ UNCHANGED status
+       ELSE LET e == EndOf(T, loc.as, loc.inif) IN
+           /\ loc' = [as |-> e.pas, r |-> e.pr, scope |-> "ext", inif |-> e.pif, from |-> 0]
+           /\ UNCHANGED status
+
+Move(T, res) ==
+    /\ pkt' = res.pkt
+    /\ IF res.disp # "forward" THEN
+           status' = "dropped" /\ UNCHANGED <<loc, k, leg>>
+       ELSE IF res.out = "int" THEN
+           /\ status' = IF leg = "scmp" THEN (IF loc.as = src0 THEN "scmp-delivered" ELSE "strayed")
+                        ELSE IF k = Len(ifs) \div 2 /\ loc.as = LegDst
+                        THEN (IF leg = "req" THEN "delivered" ELSE "answered") ELSE "strayed"
+           /\ UNCHANGED <<loc, k, leg>>
+       ELSE IF leg # "scmp" /\ (k >= Len(ifs) \div 2 \/ loc.as # LegIfs[2 * k + 1].as
+                                \/ res.egress # LegIfs[2 * k + 1]["if"]) THEN
+           status' = "strayed" /\ UNCHANGED <<loc, k, leg>>
+       ELSE IF res.out = "sib" THEN
+           /\ loc' = [as |-> loc.as, r |-> EndOf(T, loc.as, res.egress).r, scope |-> "sib",
+                      inif |-> 0, from |-> loc.r]
+           /\ UNCHANGED <<status, k, leg>>
+       ELSE LET e == EndOf(T, loc.as, res.egress) IN
+           /\ loc' = [as |-> e.pas, r |-> e.pr, scope |-> "ext", inif |-> e.pif, from |-> 0]
+           /\ k' = k + 1
+           /\ status' = IF leg = "scmp" \/ (e.pas = LegIfs[2 * k + 2].as /\ e.pif = LegIfs[2 * k + 2]["if"])
+                        THEN "flight" ELSE "strayed"
+           /\ UNCHANGED leg
+
 Step ==
     /\ status = "flight"
     /\ LET T == TT[ti]
-           res == RouterStep(T, loc.as, loc.r, loc.scope, loc.inif, loc.from, {}, pkt)
-       IN
-       /\ pkt' = res.pkt
-       /\ IF res.disp # "forward" THEN
-              status' = "dropped" /\ UNCHANGED <<loc, k, leg>>
-          ELSE IF res.out = "int" THEN
-              /\ status' = IF k = Len(ifs) \div 2 /\ loc.as = LegDst
-                           THEN (IF leg = "req" THEN "delivered" ELSE "answered") ELSE "strayed"
-              /\ UNCHANGED <<loc, k, leg>>
-          ELSE IF k >= Len(ifs) \div 2 \/ loc.as # LegIfs[2 * k + 1].as
-                  \/ res.egress # LegIfs[2 * k + 1]["if"] THEN
-              status' = "strayed" /\ UNCHANGED <<loc, k, leg>>
-          ELSE IF res.out = "sib" THEN
-              /\ loc' = [as |-> loc.as, r |-> EndOf(T, loc.as, res.egress).r, scope |-> "sib",
-                         inif |-> 0, from |-> loc.r]
-              /\ UNCHANGED <<status, k, leg>>
-          ELSE LET e == EndOf(T, loc.as, res.egress) IN
-              /\ loc' = [as |-> e.pas, r |-> e.pr, scope |-> "ext", inif |-> e.pif, from |-> 0]
-              /\ k' = k + 1
-              /\ status' = IF e.pas = LegIfs[2 * k + 2].as /\ e.pif = LegIfs[2 * k + 2]["if"]
-                           THEN "flight" ELSE "strayed"
-              /\ UNCHANGED leg
-    /\ UNCHANGED <<ti, ifs, src0, dst0, tam>>
+           down == IF fault.kind = "down" /\ fault.as = loc.as /\ leg = "req" THEN {fault["if"]} ELSE {}
+           res == RouterStep(T, loc.as, loc.r, loc.scope, loc.inif, loc.from, down, pkt)
+       IN IF res.disp = "slow" /\ fault.kind # "none" /\ leg = "req"
+          THEN Answer(T, res) ELSE Move(T, res)
+    /\ UNCHANGED <<ti, ifs, src0, dst0, tam, fault>>
+
+\* C10: one fault on a valid path, chosen before the packet leaves: an on-path egress interface is
+\* down, every hop field of one on-path AS is expired, or (traceroute) one on-path interface is
+\* flagged with a router alert
+InjectFault ==
+    /\ status = "flight" /\ leg = "req" /\ k = 0 /\ pkt.ch = 0 /\ loc.scope = "int"
+    /\ fault.kind = "none" /\ ~tam.on /\ ti \in TamperTopos
+    /\ \/ \E x \in {y \in DOMAIN ifs : y % 2 = 1} :
+            /\ fault' = [kind |-> "down", as |-> ifs[x].as, if |-> ifs[x]["if"]]
+            /\ UNCHANGED pkt
+       \/ \E a \in {ifs[y].as : y \in DOMAIN ifs} :
+            /\ fault' = [kind |-> "expired", as |-> a, if |-> 0]
+            /\ pkt' = [pkt EXCEPT !.hops = [m \in DOMAIN pkt.hops |->
+                          IF pkt.hops[m].as = a THEN [pkt.hops[m] EXCEPT !.x = TRUE] ELSE pkt.hops[m]]]
+       \/ \E x \in DOMAIN ifs, m \in DOMAIN pkt.hops :
+            /\ pkt.hops[m].as = ifs[x].as
+            /\ ifs[x]["if"] \in {pkt.hops[m].in, pkt.hops[m].eg}
+            /\ fault' = [kind |-> "alert", as |-> ifs[x].as, if |-> ifs[x]["if"]]
+            /\ pkt' = [pkt EXCEPT !.hops[m] = IF ifs[x]["if"] = @.in THEN [@ EXCEPT !.ia = TRUE]
+                                                ELSE [@ EXCEPT !.ea = TRUE]]
+    /\ UNCHANGED <<ti, ifs, loc, leg, k, status, src0, dst0, tam>>
 
 \* C04: somebody on the way alters ONE MAC-protected value of a hop or info field that no router
 \* has validated yet.  Symbolically: an altered ConsIngress/ConsEgress/ExpTime/MAC makes the hop's
@@ -196,7 +238,7 @@ SegStart(p, i) == IF i = 0 THEN 0 ELSE IF i = 1 THEN p.sl[1] ELSE p.sl[1] + p.sl
 FreshVisit == loc.scope \in {"int", "ext"}     \* not the second router of the same AS
 Junk == {<<"junk", <<>>, 0>>}
 TamperAct ==
-    /\ status = "flight" /\ leg = "req" /\ ~tam.on /\ ti \in TamperTopos
+    /\ status = "flight" /\ leg = "req" /\ ~tam.on /\ ti \in TamperTopos /\ fault.kind = "none"
     /\ \/ \E h \in 0..(NumHops(pkt) - 1), kind \in {"mac", "in", "eg"} :
             /\ h > pkt.ch \/ (h = pkt.ch /\ FreshVisit)
             /\ pkt' = [pkt EXCEPT !.hops[h + 1] =
@@ -211,7 +253,7 @@ TamperAct ==
                                 IF InfIdx(pkt, m - 1) = i THEN [pkt.hops[m] EXCEPT !.ok = FALSE]
                                 ELSE pkt.hops[m]]]
             /\ tam' = [on |-> TRUE, kind |-> kind, h |-> SegStart(pkt, i)]
-    /\ UNCHANGED <<ti, ifs, loc, leg, k, status, src0, dst0>>
+    /\ UNCHANGED <<ti, ifs, loc, leg, k, status, src0, dst0, fault>>
 
 \* the destination host reverses the path of the packet it received and answers through the router
 \* that delivered it
@@ -220,20 +262,24 @@ HostReverse ==
     /\ pkt' = Reverse(pkt)
     /\ loc' = [loc EXCEPT !.scope = "int", !.inif = 0, !.from = 0]
     /\ leg' = "rep" /\ k' = 0 /\ status' = "flight"
-    /\ UNCHANGED <<ti, ifs, src0, dst0, tam>>
+    /\ UNCHANGED <<ti, ifs, src0, dst0, tam, fault>>
 
-Next == Choose \/ Step \/ HostReverse \/ TamperAct
+Next == Choose \/ Step \/ HostReverse \/ TamperAct \/ InjectFault
 Spec == Init /\ [][Next]_vars
 
 \* ------------------------------------------------------------------ properties
 \* C02 + C03: no honest request or reply is dropped or leaves the interface list of its path
-Honest == ~tam.on => status \notin {"dropped", "strayed"}
+Honest == ~tam.on /\ fault.kind = "none" => status \notin {"dropped", "strayed"}
+\* C10: an answer of a slow path is forwarded by every router and handed to a host of the source AS;
+\* a flagged traceroute request never reaches the destination unanswered
+AnswersComeBack == /\ (leg = "scmp" => status \notin {"dropped", "strayed"})
+                   /\ (fault.kind = "alert" => status \notin {"delivered", "dropped", "strayed"})
 \* C04: a tampered packet is never handed to the destination host and does not survive the router
 \* that validates the first hop field depending on the altered value
 NoDeliveryAfterTamper == tam.on => /\ status \notin {"delivered", "answered"}
                                    /\ (status = "flight" => pkt.ch <= tam.h)
 \* C07 (frame): a router changes only pointers and segment identifiers
-Frame == [][status = "flight" /\ status' # "choose" /\ leg' = leg /\ tam' = tam =>
+Frame == [][status = "flight" /\ status' # "choose" /\ leg' = leg /\ tam' = tam /\ fault' = fault =>
               pkt'.hops = pkt.hops /\ pkt'.src = pkt.src /\ pkt'.dst = pkt.dst /\ pkt'.sl = pkt.sl
               /\ \A i \in DOMAIN pkt.infos : pkt'.infos[i].c = pkt.infos[i].c /\ pkt'.infos[i].p = pkt.infos[i].p]_vars
 \* C22: the accumulator in force when a router validates the current hop is its construction value
@@ -241,7 +287,7 @@ Frame == [][status = "flight" /\ status' # "choose" /\ leg' = leg /\ tam' = tam 
 InForce(p, as, inif) ==
     LET i == CurInf(p) h == CurHop(p) IN
     IF ~i.c /\ inif # 0 /\ ~PeerOf(p) THEN Upd(i.sid, h.sig) ELSE i.sid
-SegIDInSync == status = "flight" /\ ~tam.on => InForce(pkt, loc.as, loc.inif) = CurHop(pkt).bc
+SegIDInSync == status = "flight" /\ ~tam.on /\ leg # "scmp" => InForce(pkt, loc.as, loc.inif) = CurHop(pkt).bc
 \* every journey ends: reply delivered
 Done == <>(status = "answered")
 =============================================================================
